@@ -85,7 +85,7 @@ def main():
             has_store = "store" in ftypes
             binding = {}
             if has_store:
-                bound = {"store"}
+                bound = ["store"]          # ordered: deterministic choice of `via` (the store first, then in order of discovery)
                 changed = True
                 while changed:
                     changed = False
@@ -95,27 +95,27 @@ def main():
                         why = None
                         for k, v, _ in items:
                             v0 = re.sub(r" @ .*$", "", v)
-                            if k == "has_one" and v0 in bound: why = ("hasOne", v0)
+                            if k == "has_one" and v0 in bound and why is None: why = ("hasOne", v0)
                         if why is None:
                             for b in bound:
-                                if any(k == "has_one" and re.sub(r" @ .*$", "", v) == fn for k, v, _ in fattrs.get(b, [])): why = ("referencedBy", b)
+                                if why is None and any(k == "has_one" and re.sub(r" @ .*$", "", v) == fn for k, v, _ in fattrs.get(b, [])): why = ("referencedBy", b)
                         if why is None:
                             for k, v, _ in items:
                                 if k == "seeds":
                                     for b in bound:
-                                        if re.search(rf"\b{b} \. key\b", v): why = ("seeds", b)
+                                        if why is None and re.search(rf"\b{b} \. key\b", v): why = ("seeds", b)
                         if why is None:
                             for k, v, _ in items:
                                 if k in ("constraint", "address"):
                                     for b in bound:
-                                        if re.search(rf"\b{b}\b", v): why = ("constraint", b)
+                                        if why is None and re.search(rf"\b{b}\b", v): why = ("constraint", b)
                         if why is None:
                             # a bound account's constraint mentions this one (e.g. `constraint = config.x() == Some(&this.key())`)
                             for b in bound:
                                 for k, v, _ in fattrs.get(b, []):
-                                    if k in ("constraint", "address") and re.search(rf"\b{fn} \. key\b", v): why = ("constraint", b)
+                                    if why is None and k in ("constraint", "address") and re.search(rf"\b{fn} \. key\b", v): why = ("constraint", b)
                         if why:
-                            binding[fn] = why; bound.add(fn); changed = True
+                            binding[fn] = why; bound.append(fn); changed = True
             accs = []
             for fn, tn in state:
                 if fn == "store" or tn == "Store": b = ".isStore"
